@@ -133,6 +133,16 @@ func newExpireDuration(cmd string, name string, n int, unit time.Duration) (time
 	return time.Duration(n) * unit, nil
 }
 
+// newExpireTime converts a UNIX time in seconds into a time. As in Redis, which keeps
+// expiry times in milliseconds, seconds that cannot be expressed in milliseconds are
+// out of range (converted, the largest ones would wrap around into the past).
+func newExpireTime(cmd string, name string, sec int) (time.Time, error) {
+	if int64(sec) > math.MaxInt64/1000 || int64(sec) < math.MinInt64/1000 {
+		return time.Time{}, newInvalidArgumentError(cmd, name, ErrInvalidExpireTime)
+	}
+	return time.Unix(int64(sec), 0), nil
+}
+
 func nextSetExArguments(cmd string, args Arguments) (string, int, string, error) {
 	key, err := args.NextString()
 	if err != nil {
@@ -210,7 +220,10 @@ func nextSetOptionArguments(cmd string, args Arguments) (SetOption, error) {
 					return opt, err
 				}
 			case "EXAT":
-				opt.EXAT = time.Unix(int64(argInt), 0)
+				opt.EXAT, err = newExpireTime(cmd, argStr, argInt)
+				if err != nil {
+					return opt, err
+				}
 			case "PXAT":
 				opt.PXAT = time.UnixMilli(int64(argInt))
 			}
